@@ -106,6 +106,11 @@ type c19Read struct {
 	Shape string
 	// OwnCtx: wsjson.Read gets a context of its own that is cancelled as soon as the call has returned.
 	OwnCtx bool
+	// Compress: the peer compresses this document (when permessage-deflate was agreed; with context
+	// takeover its compressor keeps the history of the documents it compressed - and only of those).
+	Compress bool
+	// transport-cut: depth = bytes of the document that still arrive, CutFirst of them in the first (non-final) frame
+	CutFirst int
 }
 
 func newTarget(kind string) any {
@@ -174,7 +179,7 @@ func genC19Read(rt *rapid.T, nConns int) c19Read {
 			doc = b.Bytes()
 		}
 	}
-	r.Mangle = rapid.SampledFrom([]string{"", "", "", "", "truncate", "trailing", "two-values", "garbage", "overflow"}).Draw(rt, "mangle")
+	r.Mangle = rapid.SampledFrom([]string{"", "", "", "", "truncate", "trailing", "two-values", "garbage", "overflow", "transport-cut"}).Draw(rt, "mangle")
 	switch r.Mangle {
 	case "truncate":
 		if len(doc) > 1 {
@@ -198,6 +203,11 @@ func genC19Read(rt *rapid.T, nConns int) c19Read {
 			r.Target = "struct"
 			doc = []byte(`{"d":{"E":` + digits + `}}`)
 		}
+	case "transport-cut":
+		// a number whose every prefix is valid JSON too; the transport ends inside its final frame
+		doc = bytes.Repeat([]byte("1234567890"), rapid.SampledFrom([]int{1, 30, 300}).Draw(rt, "cutDocLen"))
+		r.depth = rapid.IntRange(1, len(doc)-1).Draw(rt, "cutKeep") // bytes of the document that still arrive
+		r.CutFirst = rapid.SampledFrom([]int{0, 1, r.depth / 2, r.depth - 1, r.depth, r.depth}).Draw(rt, "cutFirst")
 	case "garbage":
 		doc = []byte(rapid.SampledFrom([]string{"", "{", "nul", "[1,]", "{\"a\":}", "\xff\xfe", "'single'"}).Draw(rt, "garbageDoc"))
 	}
@@ -237,6 +247,7 @@ func runC19Reads(t fataler, c c19Case, concurrent bool) (string, c19Result) {
 	e := newEnv(t)
 	defer e.Teardown()
 	conns := make([]*libConn, c.Conns)
+	defs := make([]*ref.Deflater, c.Conns)
 	for i := range conns {
 		lc, err := e.open(connSpec{Client: c.Mode.Client, Mode: c.Mode.Mode, Ext: c.Mode.Ext})
 		if err != nil {
@@ -245,6 +256,7 @@ func runC19Reads(t fataler, c c19Case, concurrent bool) (string, c19Result) {
 		lc.C.SetReadLimit(1 << 20)
 		lc.Peer.start(e)
 		conns[i] = lc
+		defs[i] = ref.NewDeflater(lc.Agreed.SenderTakeover(!c.Mode.Client))
 	}
 	ctx := context.Background()
 	type kept struct {
@@ -275,15 +287,45 @@ func runC19Reads(t fataler, c c19Case, concurrent bool) (string, c19Result) {
 		if r.Binary {
 			op = ref.OpBinary
 		}
+		if r.Mangle == "transport-cut" {
+			keep := r.depth
+			first := r.CutFirst // == keep: only the header of the final frame gets through
+			if first > keep {
+				first = keep
+			}
+			fr := []ref.Frame{{Opcode: ref.OpText, Payload: r.Doc[:first]}, {Fin: true, Opcode: ref.OpCont, Payload: r.Doc[first:]}}
+			_, b, _ := finishMasking(fr, c.Mode.Client)
+			lc.Peer.sendRaw(b[:len(b)-(len(r.Doc)-keep)])
+			lc.End.CloseWrite(nil)
+			var v any
+			var err error
+			d := e.Call(func() { err = wsjson.Read(ctx, lc.C, &v) })
+			mu.Lock()
+			dead[r.Conn] = true
+			res.Rejected++
+			mu.Unlock()
+			if !within(d, 30*time.Second) {
+				setFail(fmt.Sprintf("read %d did not return after the transport ended", i))
+			} else if err == nil {
+				setFail(fmt.Sprintf("read %d: the transport ended after %d of the %d bytes of the document, but wsjson.Read returned nil and decoded %v", i, keep, len(r.Doc), v))
+			}
+			return
+		}
+		raw, comp := r.Doc, false
+		if r.Compress && lc.Agreed.Deflate {
+			mu.Lock() // (one deflater per connection; concurrent mode runs one goroutine per connection)
+			raw, comp = defs[r.Conn].Message(r.Doc, ref.DVSync), true
+			mu.Unlock()
+		}
 		switch r.Shape {
 		case "two":
-			lc.Peer.send(ref.Frame{Opcode: op, Payload: r.Doc[:len(r.Doc)/2]})
-			lc.Peer.send(ref.Frame{Fin: true, Opcode: ref.OpCont, Payload: r.Doc[len(r.Doc)/2:]})
+			lc.Peer.send(ref.Frame{Opcode: op, Rsv1: comp, Payload: raw[:len(raw)/2]})
+			lc.Peer.send(ref.Frame{Fin: true, Opcode: ref.OpCont, Payload: raw[len(raw)/2:]})
 		case "empty-fin":
-			lc.Peer.send(ref.Frame{Opcode: op, Payload: r.Doc})
+			lc.Peer.send(ref.Frame{Opcode: op, Rsv1: comp, Payload: raw})
 			lc.Peer.send(ref.Frame{Fin: true, Opcode: ref.OpCont})
 		default:
-			lc.Peer.send(ref.Frame{Fin: true, Opcode: op, Payload: r.Doc})
+			lc.Peer.send(ref.Frame{Fin: true, Opcode: op, Rsv1: comp, Payload: raw})
 		}
 		target := newTarget(r.Target)
 		var err error
@@ -403,14 +445,25 @@ func genC19(rt *rapid.T) c19Case {
 	c.Conns = rapid.IntRange(1, 3).Draw(rt, "nConns")
 	n := rapid.IntRange(2, 8).Draw(rt, "nReads")
 	for i := 0; i < n; i++ {
-		c.Reads = append(c.Reads, genC19Read(rt, c.Conns))
+		r := genC19Read(rt, c.Conns)
+		r.Compress = rapid.IntRange(0, 2).Draw(rt, "compressDoc") != 0
+		if i > 0 && rapid.IntRange(0, 2).Draw(rt, "repeatEarlierDoc") == 0 {
+			// the same document again (on the same or another connection): a compressor that keeps
+			// its window encodes it as references into what it sent before
+			prev := c.Reads[rapid.IntRange(0, i-1).Draw(rt, "repeatOf")]
+			if prev.Mangle == "" {
+				r.Doc, r.Target, r.Mangle, r.depth, r.Binary = prev.Doc, prev.Target, prev.Mangle, prev.depth, prev.Binary
+				r.Conn = prev.Conn
+			}
+		}
+		c.Reads = append(c.Reads, r)
 	}
 	return c
 }
 
 func TestC19(t *testing.T) {
 	rec := evid.For("C19")
-	rec.Rule = "reads: rapid draws 2-8 wsjson.Read calls over 1-3 connections (sharing the buffer pool), each with a document from a recursive JSON generator (depth <= 6, unicode/escapes, strings up to 160 KB with the read limit raised, numbers, nulls), optionally indented, mangled (truncated, trailing garbage, two values, garbage) or of the wrong shape for the target, framed as one frame / two fragments / one non-final frame plus an empty final frame, read with the shared context or with a context of its own that is cancelled as soon as the call returned; writes: 1-5 wsjson.Write calls incl. values encoding/json rejects (NaN, Inf, chan, func, failing Marshaler), after which the later values must still arrive; decoded into interface{}, a struct, json.RawMessage, []byte, string, map or slice; compared with encoding/json on the same bytes (accept/reject and value), invalid => Close 1007 on the wire, earlier results re-checked after all later reads. writes: generated values written with wsjson.Write must appear as exactly one text message whose payload is JSON-equivalent. Non-trivial: a nested value (depth >= 2) or a RawMessage/[]byte target followed by another read. distinct = hash(mode, conns, per-read (target, mangle, depth, size class))."
+	rec.Rule = "reads: rapid draws 2-8 wsjson.Read calls over 1-3 connections (sharing the buffer pool), each with a document from a recursive JSON generator (depth <= 6, unicode/escapes, strings up to 160 KB with the read limit raised, numbers, nulls), optionally indented, mangled (truncated, trailing garbage, two values, garbage) or of the wrong shape for the target, sent uncompressed or compressed (the peer's compressor keeping its window where agreed, a third of the documents repeating an earlier one), framed as one frame / two fragments / one non-final frame plus an empty final frame, read with the shared context or with a context of its own that is cancelled as soon as the call returned; writes: 1-5 wsjson.Write calls incl. values encoding/json rejects (NaN, Inf, chan, func, failing Marshaler), after which the later values must still arrive; decoded into interface{}, a struct, json.RawMessage, []byte, string, map or slice; compared with encoding/json on the same bytes (accept/reject and value), invalid => Close 1007 on the wire, earlier results re-checked after all later reads. writes: generated values written with wsjson.Write must appear as exactly one text message whose payload is JSON-equivalent. Non-trivial: a nested value (depth >= 2) or a RawMessage/[]byte target followed by another read. distinct = hash(mode, conns, per-read (target, mangle, depth, size class))."
 	rapid.Check(t, func(rt *rapid.T) {
 		c := genC19(rt)
 		var msg string
